@@ -315,3 +315,104 @@ func Uint(v uint64) *Item   { return &Item{Major: 0, Arg: v} }
 func BytesItem(b []byte) *Item { return &Item{Major: 2, Arg: uint64(len(b)), Data: b} }
 func Text(s string) *Item   { return &Item{Major: 3, Arg: uint64(len(s)), Data: []byte(s)} }
 func Array(xs ...*Item) *Item { return &Item{Major: 4, Arg: uint64(len(xs)), Items: xs} }
+
+// DeclaredTooLong scans b leniently (as far as it is well-formed) and reports
+// whether some array / map / string head declares more entries / bytes than
+// there are bytes left in the input. This is the syntactic predicate of the
+// known finding C09/mem/dagcbor-declared-length.
+func DeclaredTooLong(b []byte) bool {
+	pos := 0
+	var walk func(depth int) bool // returns false when scanning must stop
+	found := false
+	walk = func(depth int) bool {
+		if depth > 4096 || pos >= len(b) {
+			return false
+		}
+		ib := b[pos]
+		major, info := ib>>5, ib&0x1f
+		pos++
+		var arg uint64
+		switch {
+		case info < 24:
+			arg = uint64(info)
+		case info == 24:
+			if pos+1 > len(b) {
+				return false
+			}
+			arg = uint64(b[pos])
+			pos++
+		case info == 25:
+			if pos+2 > len(b) {
+				return false
+			}
+			arg = uint64(binary.BigEndian.Uint16(b[pos:]))
+			pos += 2
+		case info == 26:
+			if pos+4 > len(b) {
+				return false
+			}
+			arg = uint64(binary.BigEndian.Uint32(b[pos:]))
+			pos += 4
+		case info == 27:
+			if pos+8 > len(b) {
+				return false
+			}
+			arg = binary.BigEndian.Uint64(b[pos:])
+			pos += 8
+		case info == 31:
+			// indefinite: items until break
+			if major == 4 || major == 5 {
+				for pos < len(b) && b[pos] != 0xff {
+					if !walk(depth + 1) {
+						return false
+					}
+				}
+				pos++
+				return true
+			}
+			return false
+		default:
+			return false
+		}
+		rem := uint64(len(b) - pos)
+		switch major {
+		case 0, 1, 7:
+			return true
+		case 2, 3:
+			if arg > rem {
+				found = found || arg > rem+64
+				return false
+			}
+			pos += int(arg)
+			return true
+		case 4, 5:
+			n := arg
+			if major == 5 {
+				if arg > rem {
+					found = true
+					return false
+				}
+				n = arg * 2
+			}
+			if arg > rem {
+				found = true
+				return false
+			}
+			for i := uint64(0); i < n; i++ {
+				if !walk(depth + 1) {
+					return false
+				}
+			}
+			return true
+		case 6:
+			return walk(depth + 1)
+		}
+		return false
+	}
+	for pos < len(b) {
+		if !walk(0) {
+			break
+		}
+	}
+	return found
+}
